@@ -463,3 +463,53 @@ theorem createRules_files (cfg : Cfg) : ∀ (files : List (String × List RuleSr
     exact this
 
 end ASV.Parser
+
+namespace ASV.Parser
+open ASV ASV.Rules ASV.Grammar
+
+/-- the superiors loop succeeded: every listed name is a stored rule, the result is the inherited names in order -/
+theorem supFold_inv (rules : List Rule) : ∀ (l : List String) (acc r : List String),
+    l.foldlM (fun (acc : List String) name =>
+      match rules.find? (·.name == name) with
+      | none => (.error .value : Except Err (List String))
+      | some r => .ok (acc ++ r.superiors)) acc = .ok r →
+    (∀ n ∈ l, (rules.find? (·.name == n)).isSome = true) ∧ r = acc ++ l.flatMap (supOf rules) := by
+  intro l
+  induction l with
+  | nil => intro acc r h; simp [pure, Except.pure] at h; simp [h]
+  | cons n ns ih =>
+    intro acc r h
+    cases hf : rules.find? (·.name == n) with
+    | none => simp [List.foldlM_cons, hf, bind, Except.bind] at h
+    | some p =>
+      simp only [List.foldlM_cons, hf, bind, Except.bind] at h
+      obtain ⟨h1, h2⟩ := ih _ _ h
+      refine ⟨?_, ?_⟩
+      · intro x hx
+        rcases List.mem_cons.mp hx with rfl | hx
+        · simp [hf]
+        · exact h1 x hx
+      · simp [h2, supOf, hf]
+
+/-- `_parse_superiors` accepts only a list without repeated names, all of them rules stored before;
+    what it returns is the sorted set of the listed names and the (closed) superiors of each -/
+theorem parseSuperiors_sound (fuel : Nat) (s s' : PS) (sup : List String)
+    (h : parseSuperiors fuel s = .ok (sup, s')) :
+    ∃ x s1 decl, consume .superiors s = .ok (x, s1) ∧ parseIds fuel s1 = .ok (decl, s') ∧
+      hasDupStr decl = false ∧ (∀ n ∈ decl, (s'.rules.find? (·.name == n)).isSome = true) ∧
+      sup = sortDedupStr (decl ++ decl.flatMap (supOf s'.rules)) := by
+  unfold parseSuperiors at h
+  simp only [bind_ok, Prod.exists] at h
+  obtain ⟨x, s1, hc, decl, s2, hi, h⟩ := h
+  split at h
+  · cases h
+  · rename_i hd
+    simp only [bind_ok] at h
+    obtain ⟨trans, hfold, h⟩ := h
+    simp only [pure, Except.pure, Except.ok.injEq, Prod.mk.injEq] at h
+    obtain ⟨rfl, rfl⟩ := h
+    obtain ⟨hfound, ht⟩ := supFold_inv s2.rules decl [] trans hfold
+    refine ⟨x, s1, decl, hc, hi, by simpa using hd, hfound, ?_⟩
+    rw [ht]; rfl
+
+end ASV.Parser
